@@ -44,7 +44,7 @@ ASSUMPTIONS = [
 
 OPS = ['contains', 'in', 'area', 'bbox', 'to_mask', 'mask_apply', 'mask_values',
        'to_sky',
-       'to_pixel', 'sky_contains', 'rotate', 'copy', 'combine', 'artist',
+       'to_pixel', 'to_pixel_far', 'sky_contains', 'rotate', 'copy', 'combine', 'artist',
        'serialize', 'serialize_one', 'parse', 'parse_table', 'write_read',
        'slice']
 IO_OPS = ('serialize', 'serialize_one', 'parse', 'parse_table', 'write_read')
@@ -116,7 +116,8 @@ class Model:
         return [p['pix'], p['sky'], p['pix_shared'], p['coord'], p['image'],
                 p['mask'],
                 [lst.regions for lst in p['list']],
-                [w.to_header().tostring() for w in p['wcs']]]
+                [w.to_header().tostring() for w in p['wcs']],
+                p['far'], [H.wcs_probe(w) for w in p['wcs']]]
 
     def step(self, op):
         ctx = self.ctx
